@@ -81,6 +81,11 @@ type c25Update struct {
 	// Filter of the Invalidate: "" = the updated page's address and PID,
 	// "pid" = every page of that PID, "all" = every entry.
 	Filter string `json:"filter,omitempty"`
+	// Late: the page table is changed after the first command (Pause / Drain)
+	// has been acknowledged by every target and before the Invalidate is sent
+	// (quiesce, change, invalidate, enable) instead of right before the first
+	// command.
+	Late bool `json:"late,omitempty"`
 }
 
 func (u *c25Update) hold() int {
@@ -232,7 +237,9 @@ func (d *c25Driver) Tick() bool {
 	if cs.Upd != nil && d.phase == 0 {
 		limit -= cs.Upd.hold() // the trailing ops are always issued after the shoot-down
 		if cycle >= d.cut {
-			rig.applyUpdate()
+			if !cs.Upd.Late {
+				rig.applyUpdate()
+			}
 			d.phase = 1
 		} else {
 			progress = true // counting down to the cut
@@ -240,6 +247,9 @@ func (d *c25Driver) Tick() bool {
 	}
 	if d.phase == 1 {
 		if d.waitingID == 0 {
+			if cs.Upd.Late && !rig.updated && d.step == len(d.steps)/3 {
+				rig.applyUpdate() // every target has acknowledged the first command
+			}
 			if d.step == len(d.steps) {
 				d.phase = 2
 				rig.ackCycle = cycle
@@ -854,7 +864,11 @@ func runC25(cs c25Case) (string, []lib.Problem) {
 	if c25Executions != nil {
 		c25Executions(n)
 	}
-	return fmt.Sprintf("%s upd-%s%s h%d cuts%d", out, cs.Upd.First, cs.Upd.Filter, cs.Upd.hold(), end+2), pr.list
+	late := ""
+	if cs.Upd.Late {
+		late = "-then-update"
+	}
+	return fmt.Sprintf("%s upd-%s%s%s h%d cuts%d", out, cs.Upd.First, late, cs.Upd.Filter, cs.Upd.hold(), end+2), pr.list
 }
 
 // ---------------------------------------------------------------------------
@@ -1093,7 +1107,16 @@ func enumC25(c *lib.Ctx, yield func(c25Case) bool) {
 						if !touched || (len(ops) == 2 && last.Off != 0) || (!thorough && ops[0].Off != 0) {
 							return true
 						}
-						return yield(mk(sh, g, 0, 4, eager, ops, &c25Update{First: first, Cut: -1}))
+						if !yield(mk(sh, g, 0, 4, eager, ops, &c25Update{First: first, Cut: -1})) {
+							return false
+						}
+						// quiesce first, then change the table, then invalidate
+						// (the Pause variant is covered by the same window as the
+						// early update; quick: the small stacks only)
+						if first == "drain" && (thorough || !sh.gmmu) {
+							return yield(mk(sh, g, 0, 4, eager, ops, &c25Update{First: first, Cut: -1, Late: true}))
+						}
+						return true
 					})
 					if !ok {
 						return
@@ -1111,7 +1134,7 @@ func init() {
 		Rule: "every stack AT -> TLB -> [L2 TLB] -> [MMU cache] -> {MMU | GMMU -> MMU} (GMMU: pages all local / all remote / odd pages remote) built from the real components, one real direct connection per link, an ideal memory under the AT; " +
 			"2 PIDs x 3 virtual 4 KiB pages mapped to 4 frames by 4 tables (injective, shared across PIDs, shared inside a PID, permuted); scripts = every sequence of <= 2 (thorough 3) accesses (read|write, pid, vpage, offset in {0,8}; in 3-access scripts the offset is tied to the kind), issued serially or eagerly; " +
 			"family A: all 16 stacks x tables {0,2} (thorough all 4) x TLB geometries (sets,ways,MSHR,latency) {(1,1,1,1),(1,1,1,2),(2,2,2,4)}, port buffers 4; family B: stacks TLB>MMU and TLB>L2TLB>MMU x every geometry sets{1,2} x ways{1,2} x MSHR{1,2} (quick: MSHR = ways) x latency{1,2,4} x port buffers {1,4}, table 0; " +
-			"family C: every script of 2 (thorough 2..3) accesses whose last page was touched before, with one page-table update of that page (to a frame no page of that PID uses) at EVERY driver cycle up to one past the cycle at which the accesses issued before it have drained (later cuts find the same idle stack), followed by {Pause|Drain} -> Invalidate(pid,page) -> Enable sent top-down to every TLB / MMU cache, one acknowledged command at a time; the last access is issued after the final acknowledgement (12 stacks x geometries {(1,1,1,1),(1,1,1,2)} (thorough + (2,2,2,2),(1,2,2,4))); " +
+			"family C: every script of 2 (thorough 2..3) accesses whose last page was touched before, with one page-table update of that page (to a frame no page of that PID uses) at EVERY driver cycle up to one past the cycle at which the accesses issued before it have drained (later cuts find the same idle stack), followed by {Pause|Drain} -> Invalidate(pid,page) -> Enable sent top-down to every TLB / MMU cache, one acknowledged command at a time, and the order Drain -> page-table update -> Invalidate -> Enable (update after every Drain acknowledgement; quick: stacks without GMMU); the last access is issued after the final acknowledgement (12 stacks x geometries {(1,1,1,1),(1,1,1,2)} (thorough + (2,2,2,2),(1,2,2,4))); " +
 			"family E (way recycling after an invalidation): every read-only script of 3..4 (thorough 5) accesses of one PID over 3 pages whose last page was touched before the update, the last 2..3 accesses issued after the final acknowledgement, {Drain|Pause} x Invalidate filter {page+PID; PID only; everything (quick: the latter two on 3-access scripts)} at every cut, on TLB>MMU and TLB>L2TLB>MMU with geometries (1,1,1,2),(1,2,2,2),(2,1,1,2) (thorough + (1,2,1,4),(2,2,2,1)); " +
 			"family D (quick only; thorough has 3-access scripts in every family): every read-only script of 3 accesses (an evicted page is accessed again) on TLB>MMU and TLB>L2TLB>MMU with one-way TLBs (sets 1 and 2). " +
 			"Oracle: the address each access has at the memory == frame(pid,vpage) + offset (accesses issued before the update may use either mapping, accesses issued after the acknowledgement only the new one); port-hook ledger on every Top port: each translation request answered exactly once with RspTo == its ID, Dst == its Src, its own page and the table's frame; every access answered exactly once; write payloads reach the memory unchanged; serial update-free runs also read back what a flat memory at the mapped addresses holds; every control command acknowledged; no panic, no livelock. " +
